@@ -474,3 +474,49 @@ package tor
 //@   requires [websOn] t.useWebseeds
 //@   modifies *
 //@   props    C14 C18
+
+// ---- handleEvent: PARTIAL check (C09) ----
+// A TorDrop / TorData event for [Begin, Begin+Length) of a piece releases the
+// in-flight count of as many blocks as that range touches, ceil(Length/16 KiB),
+// including a final short one (Ghost_n counts the releasing calls of
+// noteInFlight; that they name consecutive blocks from the first is visible
+// in the loop but not part of the check).
+//@ func noteInFlight
+//@   requires t != nil && int(index) < len(t.inFlight) && t.Log != nil
+//@   modifies t.inFlight[_]
+//@   ensures  [dec] !have && old(t.inFlight[index]) > 0 ==> t.inFlight[index] == old(t.inFlight[index]) - 1
+//@   ensures  [inc] have && old(t.inFlight[index]) < 255 ==> t.inFlight[index] == old(t.inFlight[index]) + 1
+//@   ensures  [others] forall k int :: 0 <= k && k < len(t.inFlight) && k != int(index) ==> t.inFlight[k] == old(t.inFlight[k])
+//@   props    C09
+
+//@ func handleEvent
+//@   requires t != nil && ctx != nil && t.Log != nil
+//@   ghostvar Ghost_n int
+//@   atcall   noteInFlight :: !have :: Ghost_n = Ghost_n + 1
+//@   assume   int(t.Pieces.PieceSize()) <= 1<<30
+//@   modifies *
+//@   ensures  [dropall] $r0 == nil && typeis_[peer.TorDrop](c) && old(t.infoComplete) != 0 && as_[peer.TorDrop](c).Begin%16384 == 0 &&
+//@            int(as_[peer.TorDrop](c).Begin) + int(as_[peer.TorDrop](c).Length) <= int(old(t.Pieces.PieceSize())) ==>
+//@            Ghost_n == (int(as_[peer.TorDrop](c).Length) + 16383)/16384
+//@   ensures  [dataall] $r0 == nil && typeis_[peer.TorData](c) && old(t.infoComplete) != 0 && as_[peer.TorData](c).Begin%16384 == 0 &&
+//@            int(as_[peer.TorData](c).Begin) + int(as_[peer.TorData](c).Length) <= int(old(t.Pieces.PieceSize())) ==>
+//@            Ghost_n == (int(as_[peer.TorData](c).Length) + 16383)/16384
+//@   loop 4
+//@     invariant i <= chunks && Ghost_n == int(i)
+//@   loop 5
+//@     invariant i <= chunks && Ghost_n == int(i)
+//@   splitreturn
+//@   focus    post:dropall, post:dataall
+//@   props    C09
+
+// noteAvailable: the availability of exactly the named piece moves by one
+// (saturating at 0 and 65535), the table grows as needed, other pieces keep
+// their counts.
+//@ func noteAvailable
+//@   requires t != nil && t.Log != nil && int(index) < 1<<30
+//@   modifies t.available, t.available[__]
+//@   ensures  [len]  len(t.available) == max(old(len(t.available)), int(index)+1)
+//@   ensures  [inc]  have && (int(index) >= old(len(t.available)) || old(t.available[index]) < 65535) ==> int(t.available[index]) == (int(index) < old(len(t.available)) ? int(old(t.available[index])) : 0) + 1
+//@   ensures  [dec]  !have && int(index) < old(len(t.available)) && old(t.available[index]) > 0 ==> t.available[index] == old(t.available[index]) - 1
+//@   ensures  [others] forall k int :: 0 <= k && k < old(len(t.available)) && k != int(index) ==> t.available[k] == old(t.available[k])
+//@   props    C09
